@@ -620,6 +620,19 @@ var trustedDeep = map[string]string{
 	"k8s.io/apimachinery/pkg/labels.Equals": "map[string]string equality",
 }
 
+// trustedMapEq: a repository function proved (isMapEqualityFn) to return true only
+// for equal maps is trusted like labels.Equals.
+func trustedMapEq(c *Ctx, fn *ssa.Function) bool {
+	if fn == nil || fn.Blocks == nil {
+		return false
+	}
+	ok, _ := isMapEqualityFn(fn)
+	if ok {
+		c.useFn(fn)
+	}
+	return ok
+}
+
 func checkFilterEquality(c *Ctx) {
 	rule := "T-COVERS(Equals)"
 	fs := comparableFilters(c)
@@ -688,7 +701,7 @@ func checkFilterEquality(c *Ctx) {
 				case t.K == "const" && t.S == "true":
 				case t.K == "assertok" && t.S == own && isParamT(t.A[0], otherName):
 					asserted = true
-				case t.K == "call" && trustedDeep[t.S] != "" && len(t.A) == 2:
+				case t.K == "call" && len(t.A) == 2 && (trustedDeep[t.S] != "" || trustedMapEq(c, t.Fn)):
 					a, b := t.A[0], t.A[1]
 					if isParamT(a, recvName) && isParamT(b, otherName) || isParamT(b, recvName) && isParamT(a, otherName) {
 						wholeDeep = true // DeepEqual(f, other): dynamic types compared too
